@@ -155,7 +155,7 @@ func BuiltinParseRFC3339(env *lisp.LEnv, args *lisp.LVal) *lisp.LVal {
 	if err := strictRFC3339(stamp.Str); err != nil {
 		return env.Error(err)
 	}
-	return Time(t)
+	return Time(writtenOffset(t))
 }
 
 func BuiltinParseRFC3339Nano(env *lisp.LEnv, args *lisp.LVal) *lisp.LVal {
@@ -170,7 +170,28 @@ func BuiltinParseRFC3339Nano(env *lisp.LEnv, args *lisp.LVal) *lisp.LVal {
 	if err := strictRFC3339(stamp.Str); err != nil {
 		return env.Error(err)
 	}
-	return Time(t)
+	return Time(writtenOffset(t))
+}
+
+// writtenOffset pins a parsed instant to the offset it was written with.
+// time.Parse attaches time.Local to a timestamp whose numeric offset happens
+// to be one the HOST's zone uses, and later arithmetic and formatting then
+// follow the host zone's rules: on a New York host
+//
+//	(time:format-rfc3339 (time:time-add (time:parse-rfc3339 "2023-03-11T12:00:00-05:00") (time:parse-duration "24h")))
+//
+// printed 2023-03-12T13:00:00-04:00 where every other host prints
+// 2023-03-12T12:00:00-05:00.  What a program computes from a timestamp must
+// not depend on where it runs.
+func writtenOffset(t time.Time) time.Time {
+	if t.Location() != time.Local {
+		return t
+	}
+	_, off := t.Zone()
+	if off == 0 {
+		return t.UTC()
+	}
+	return t.In(time.FixedZone("", off))
 }
 
 // strictRFC3339 rejects the timestamps time.Parse accepts for the RFC 3339
